@@ -8,5 +8,6 @@ import sys, os
 sys.path.insert(0, os.getcwd())
 from vlib import core, setup_list
 core.build_all(setup_list.CFGS, setup_list.BINS, jobs=6)
+core.build_all(setup_list.FEAT_CFGS, setup_list.FEAT_BINS, jobs=3)
 print("setup ok")
 PY
